@@ -73,6 +73,7 @@ type world struct {
 	pdu      map[int]gmsl.PDU // the event with that ID as a server holding it would have it (well signed, parsed)
 	wire     map[int][]byte   // the bytes in a response (bad signature / malformed applied); nil if missing
 	sibling  map[int]gmsl.PDU // dup fault: another event with the same (type, state_key)
+	goodCopy map[int]string   // bad signature in one list only: the list ("auth" / "state") that carries the genuine copy
 	rng      *rand.Rand
 	variants []string // which concrete shapes were used (for the nontrivial class)
 }
@@ -141,6 +142,9 @@ func (w *world) buildEvent(e *ev, room string, tsShift int64, extraContent bool)
 	for _, p := range e.Prev {
 		prev = append(prev, w.ids[p])
 	}
+	if e.F == "create_prevs" && !extraContent {
+		prev = append(prev, w.otherCr) // a create event that is not the first event of its room
+	}
 	auth := []string{}
 	for _, a := range e.Auth {
 		if isDomainless(string(w.ver)) && w.r.ev(a).Type == "create" {
@@ -193,13 +197,23 @@ var buildCache sync.Map
 
 func materialise(r *rec, raw []byte, seed int64) *world {
 	w := &world{r: r, ver: gmsl.RoomVersion(r.Ver), ids: map[int]string{}, byID: map[string]int{}, pdu: map[int]gmsl.PDU{},
-		wire: map[int][]byte{}, sibling: map[int]gmsl.PDU{}, rng: recordRand(raw, seed)}
+		wire: map[int][]byte{}, sibling: map[int]gmsl.PDU{}, goodCopy: map[int]string{}, rng: recordRand(raw, seed)}
 	w.impl = gmsl.MustGetRoomVersion(w.ver)
 	w.room, w.other = "!room:hs1", "!other:hs1"
 	for i := range r.Events {
 		e := &r.Events[i]
 		if e.ID != i+1 {
 			panic("c14: events are not numbered 1..N")
+		}
+		if e.Type == "create" {
+			oc := w.buildEvent(e, w.other, 0, true) // the other room: another create event
+			w.otherCr = oc.EventID()
+			if isDomainless(r.Ver) {
+				w.other = "!" + w.otherCr[1:]
+			}
+			if e.F == "create_domain" {
+				w.room = "!room:hs9" // the whole room carries a room ID that is not of the creator's domain
+			}
 		}
 		room := w.room
 		if e.F == "wrongroom" {
@@ -208,9 +222,6 @@ func materialise(r *rec, raw []byte, seed int64) *world {
 		p := w.buildEvent(e, room, 0, false)
 		if e.Type == "create" && isDomainless(r.Ver) {
 			w.room = "!" + p.EventID()[1:]
-			oc := w.buildEvent(e, "", 0, true) // the other room: another create event
-			w.otherCr = oc.EventID()
-			w.other = "!" + w.otherCr[1:]
 		}
 		w.ids[e.ID] = p.EventID()
 		w.byID[p.EventID()] = e.ID
@@ -220,6 +231,19 @@ func materialise(r *rec, raw []byte, seed int64) *world {
 			w.wire[e.ID] = nil
 		case "badsig":
 			w.wire[e.ID] = w.badSignature(e, p)
+			// an event that is in both lists of a response: sometimes only one of the two copies is forged (same
+			// event ID, the signature is not part of it).  An event of which a copy fails the signature check
+			// is an event failing the signature check.
+			if (r.Kind == "state" || r.Kind == "sendjoin") && setOf(r.AL)[e.ID] && setOf(r.SL)[e.ID] {
+				switch w.rng.Intn(5) {
+				case 0, 1:
+					w.goodCopy[e.ID] = "auth"
+					w.variants = append(w.variants, "badsig-copy=state-list-only")
+				case 2:
+					w.goodCopy[e.ID] = "state"
+					w.variants = append(w.variants, "badsig-copy=auth-list-only")
+				}
+			}
 		case "malformed":
 			w.wire[e.ID] = w.malformed(p)
 		case "dup":
@@ -326,8 +350,16 @@ func (w *world) response() *stateResponse {
 	add := func(dst *gmsl.EventJSONs, ids []int, withSiblings bool) {
 		ids = append([]int{}, ids...)
 		w.rng.Shuffle(len(ids), func(a, b int) { ids[a], ids[b] = ids[b], ids[a] })
+		list := "auth"
+		if withSiblings {
+			list = "state"
+		}
 		for _, i := range ids {
-			if js := w.wire[i]; js != nil {
+			js := w.wire[i]
+			if w.goodCopy[i] == list {
+				js = w.pdu[i].JSON()
+			}
+			if js != nil {
 				*dst = append(*dst, append(spec.RawJSON{}, js...))
 			}
 		}
